@@ -10,7 +10,7 @@ CLAIMED = {
    "Seeded search over operation histories (<=40 ops, 14 op kinds, capacities 0..6/64/MAX, two element types) with the model compared after every operation; sampled, not exhaustive. Right level: the property quantifies over histories of any length and the defects of interest need a 2-3 step sequence (e.g. lower the maximum, then push).",
    "Trusted: the Vec+capacity model in sim/checks/src/bin/c04.rs; corners where the statement is silent are accepted either way (DESIGN §8)."),
  "C01": ("vmsim", "exploration", "DESIGN §5 C01",
-   "deterministic simulation: seeded Push programs run step by step on the real interpreter and refined against an independent reference interpreter (pushmodel), with capacity / step-budget / pause-rebuild-resume fault injection and real-loop cross-checks",
+   "deterministic simulation: seeded Push programs run step by step on the real interpreter and refined against an independent reference interpreter (pushmodel), with capacity / step-budget / pause-rebuild-resume fault injection, real-loop cross-checks, long executions (30k steps) against a model-only run, deep nesting; findings that depend on hidden state are reported with a replayable call history",
    "Refinement of the real VM against an executable model after every instruction step, over seeded programs covering every instruction variant, boundary literals, capacity regimes and step limits; sampled, not exhaustive. Right level: the statement quantifies over all programs, inputs and limits; the defects of interest need specific operand/stack configurations.",
    "Trusted: pushmodel (sim/checks/src/pushmodel.rs, written from the statement and the rustdoc action tables, no shared helpers with the implementation); allowed-outcome sets are widened exactly where the statement is silent (DESIGN §8)."),
  "C02": ("vmsim", "fault_enumeration", "DESIGN §5 C02",
@@ -34,13 +34,13 @@ CLAIMED = {
    "Exact structural oracles per mutation (same length / genes stay in place; survivors form an ordered subsequence; at most one insert per parent position; new genes come from the generator's log of this call; degenerate-rate identities). Sampled over genomes x rates x streams.",
    "Trusted: the tagging scheme; Close markers are untagged, so for parents containing them the per-position insert bound is replaced by subsequence + count checks."),
  "C14": ("rngsim", "fault_enumeration", "DESIGN §5 C14",
-   "fault enumeration over operator pipelines: 37 composition shapes of logging probe operators, each run with 'probe call k fails' for every k, compared with a composition-AST model interpreter (log, output, rng consumption, error path)",
+   "fault enumeration over operator pipelines: 37 composition shapes of logging probe operators, each run with 'probe call k fails' for every k, compared with a composition-AST model interpreter (log, output, rng consumption, error path); plus seeded run-time-built composition trees of depth <= 10 and repeated applications of one operator value",
    "Every shape x every fault position is enumerated; inputs and streams are seeded. The model predicts exactly which probes run, on what input, which word each draws, where the pipeline stops, the error path and the stream position afterwards.",
    "Trusted: the AST interpreter in c14.rs; MapError is read through Display/source()."),
  "C16": ("ambient", "exploration", "DESIGN §5 C16",
    "determinism audit as simulation: a registry of every rng-consuming operation run from forked owned streams, re-run in fresh OS threads and fresh processes (ambient perturbation), in interleaved and concurrent call histories on one operator value, and Push programs with inputs declared in permuted orders",
    "A correct tree can never diverge, so any divergence is a sound violation; coverage is the registry (34 operations) x seeds x perturbations (fresh thread, fresh process, interleaving, 2-4 concurrent callers, declaration-order permutations).",
-   "Trusted: Debug/Display text as the notion of 'equal result'; the Miri leg (R4) is not part of the registered command."),
+   "Trusted: Debug/Display text as the notion of 'equal result'; the Miri leg (R4: registry digests under several Miri seeds) is part of the registered command."),
  "C17": ("rngsim", "exploration", "DESIGN §5 C17",
    "deterministic simulation through the rng seam over an enumerated flavour set: concrete value vs all 28 generated pointer flavours + blanket dyn_* method for each of the five erasable traits, from forks of one owned stream; result, error chain, typed draw trace, next word and underlying call count compared",
    "The flavour set (7 pointers x 4 auto-trait combinations x 5 traits) is enumerated completely per scenario; wrapped implementations, arguments and streams are seeded.",
@@ -55,7 +55,7 @@ CLAIMED = {
    "Trusted: the exact reference law computed in the check; statistical decisions use the Chernoff-KL rule with a total false-alarm budget of 1e-9 per invocation (fixed default seed => outcome is a fixed function of the code); biases below the resolution reported in the evidence are invisible."),
  "C12": ("rngsim", "exploration", "DESIGN §5 C12",
    "seeded many-run statistical experiments through the rng seam: observed frequencies of flips, UMAD insertions/deletions (incl. the four child patterns of a one-gene parent), crossover origins, random bits and gene kinds compared with the configured probabilities by the Chernoff-KL rule",
-   "Purely distributional property => sampling evidence with an explicit, rigorous error budget; 135 configurations x 2*10^5 (quick) / 2*10^6 (thorough) trials.",
+   "Purely distributional property => sampling evidence with an explicit, rigorous error budget; 171 configurations x 2*10^5 (quick) / 2*10^6 (thorough) trials.",
    "Trusted: the exact reference law computed in the check; statistical decisions use the Chernoff-KL rule with a total false-alarm budget of 1e-9 per invocation (fixed default seed => outcome is a fixed function of the code); biases below the resolution reported in the evidence are invisible."),
  "C13": ("rngsim", "exploration", "DESIGN §5 C13",
    "deterministic simulation through the rng seam with marker member selectors: exact clauses per seeded/adversarial run (exactly one delegate, never a weight-0 member, zero-weight errors, build-time overflow with the right fields) plus seeded statistical decision of each member's use frequency against w_i/sum over tree shapes, with_item_and_weight chains and DynWeighted lists",
